@@ -692,6 +692,7 @@ package regexp2
 //@   modifies m.otherGroups
 //@   ensures[nil]  (g == nil) == (SparseSlot(m, num) < 0 || SparseSlot(m, num) >= len(m.matchcount))
 //@   ensures[zero] g != nil && SparseSlot(m, num) == 0 ==> g.RuneIndex == m.RuneIndex && g.RuneLength == m.RuneLength
+//@   ensures[which] g != nil && SparseSlot(m, num) > 0 && old(m.otherGroups) == nil ==> g.Name == NameAtIndex(m.regex, SparseSlot(m, num)) && len(g.Captures) == m.matchcount[SparseSlot(m, num)] && g.text == m.text
 //@ spec func SparseSlot(m *Match, num int) int = ite(m.sparseCaps != nil && has(m.sparseCaps, num), m.sparseCaps[num], num)
 
 // C17: lookup by name is lookup by the number the name table gives (GroupNumberFromName), nothing else: an unknown
@@ -705,6 +706,7 @@ package regexp2
 //@   ensures[unknown] m.regex.capnames != nil && !has(m.regex.capnames, name) ==> g == nil
 //@   ensures[named]   m.regex.capnames != nil && has(m.regex.capnames, name) && m.regex.capnames[name] >= 0 ==> ((g == nil) == (SparseSlot(m, m.regex.capnames[name]) < 0 || SparseSlot(m, m.regex.capnames[name]) >= len(m.matchcount)))
 //@   ensures[zero]    m.regex.capnames != nil && has(m.regex.capnames, name) && g != nil && SparseSlot(m, m.regex.capnames[name]) == 0 ==> g.RuneIndex == m.RuneIndex && g.RuneLength == m.RuneLength
+//@   ensures[which]   m.regex.capnames != nil && has(m.regex.capnames, name) && g != nil && SparseSlot(m, m.regex.capnames[name]) > 0 && old(m.otherGroups) == nil ==> g.Name == NameAtIndex(m.regex, SparseSlot(m, m.regex.capnames[name])) && len(g.Captures) == m.matchcount[SparseSlot(m, m.regex.capnames[name])] && g.text == m.text
 
 //@ func (m *Match) GroupCount() (n int)
 //@   props C17 C08
